@@ -58,7 +58,7 @@ func (w *World) ruleCgoExtents(rule string) {
 			continue
 		}
 		testOnly := !exportedEntry(fn) && fn.Signature.Recv() == nil && len(w.callersOf(fn)) == 0 && fn.Name() != "init" && !strings.HasPrefix(fn.Name(), "init#")
-		for _, c := range cgoCalls(fn, "") {
+		for _, c := range cgoCallsFlat(fn, "") {
 			cname, _ := cgoName(c.Call.StaticCallee())
 			if testOnly {
 				w.info(rule, fnKey(fn)+"/cgo:"+cname, c.Pos(), "unexported helper with no non-test caller (test/bench wrapper); not reachable from the API")
